@@ -565,6 +565,23 @@ def enum_no_truncation(prog: Program) -> RuleResult:
                 up = node.slice.upper
                 if isinstance(up, ast.Name) and up.id in params and any(tok in up.id.lower() for tok in ("limit", "max", "count")):
                     problems.append((f"the slice `{short(node)}` truncates the results", node))
+        # a list-returning enumerator answers with its accumulator or a literal base case, nothing computed aside
+        rets = [r for r in walk_no_nested(fn) if isinstance(r, ast.Return) and r.value is not None]
+        is_gen = any(isinstance(n_, (ast.Yield, ast.YieldFrom)) for n_ in walk_no_nested(fn))
+        if rets and not is_gen and (modname, qual) not in FILL_FUNCTIONS:
+            accs = {dotted(r.value) for r in rets if isinstance(r.value, ast.Name)}
+            for r in rets:
+                v = r.value
+                literal = isinstance(v, (ast.List, ast.Tuple, ast.Constant)) and not any(isinstance(x, (ast.Name, ast.Call)) and not (isinstance(x, ast.Name) and x.id in params) for x in ast.walk(v) if x is not v and not isinstance(x, (ast.List, ast.Tuple, ast.Constant, ast.Load)))
+                if isinstance(v, ast.Name) or literal or (isinstance(v, ast.Subscript) and isinstance(v.value, ast.Name)):
+                    continue
+                if isinstance(v, ast.BinOp) and all(isinstance(x, (ast.Name, ast.BinOp, ast.Add, ast.Load)) for x in ast.walk(v)):
+                    continue  # concatenation of partial results
+                if isinstance(v, ast.Call) and isinstance(v.func, ast.Name) and (v.func.id == qual.split(".")[-1] or v.func.id.startswith("_")):
+                    continue  # delegation to the recursive helper
+                if isinstance(v, ast.Call) and dotted(v.func) in ("list", "sorted", "tuple") and v.args and isinstance(v.args[0], ast.Name):
+                    continue
+                problems.append((f"`return {short(v, 70)}` answers with something computed aside from the enumeration (a shortcut around the backtracking)", r))
         if problems:
             msg, node = problems[0]
             res.fail(construct, msg + f" ({len(problems)} site(s))", mod, node)
@@ -2418,7 +2435,213 @@ def binary_coarsenings(prog: Program) -> RuleResult:
     return res
 
 
+# ---------------------------------------------------------------------------
+# WRAP-AFTER-ESCAPE, DRAW-COLOR-OWN
+
+
+def wrap_after_escape(prog: Program) -> RuleResult:
+    res = RuleResult(
+        "WRAP-AFTER-ESCAPE",
+        "labels are escaped first and wrapped afterwards: the wrap width bounds the characters that are emitted, so "
+        "`tex.escape` is never applied to the result of `balanced_wrap` / `format_synteny` (escaping adds a "
+        "character per underscore or backslash, which would push wrapped lines past the width)",
+    )
+    n = 0
+    for modname in ("render.layout", "render.tikz"):
+        mod = prog.module(modname)
+        for qual, fn in prog.defs(modname).items():
+            if not isinstance(fn, FuncNode):
+                continue
+            wraps = [c for c in walk_no_nested(fn) if isinstance(c, ast.Call) and (dotted(c.func) or "").split(".")[-1] in ("balanced_wrap", "format_synteny")]
+            if not wraps:
+                continue
+            n += 1
+            construct = f"{modname}:{qual}/escape-before-wrap"
+            wrapped_names = {t.id for st in walk_no_nested(fn) if isinstance(st, ast.Assign) and any(w in list(ast.walk(st.value)) for w in wraps) for t in st.targets if isinstance(t, ast.Name)}
+            bad = None
+            for c in walk_no_nested(fn):
+                if isinstance(c, ast.Call) and (dotted(c.func) or "").split(".")[-1] == "escape" and c.args:
+                    arg = c.args[0]
+                    if any(w in list(ast.walk(arg)) for w in wraps):
+                        bad = c
+                    elif isinstance(arg, ast.Name) and arg.id in wrapped_names:
+                        # escape(name) where name was bound to a wrapped text BEFORE this call
+                        defs = [st for st in walk_no_nested(fn) if isinstance(st, ast.Assign) and any(isinstance(t, ast.Name) and t.id == arg.id for t in st.targets) and any(w in list(ast.walk(st.value)) for w in wraps)]
+                        if any(d.lineno < c.lineno for d in defs):
+                            bad = c
+            if bad is not None:
+                res.fail(construct, f"`{short(bad, 90)}` escapes a text that is already wrapped: the emitted lines can exceed the wrap width", mod, bad)
+            else:
+                res.ok(construct, "what is wrapped is already escaped")
+    if n < 2:
+        raise AnalysisError("WRAP-AFTER-ESCAPE: wrapping call sites of the renderers not found")
+    return res
+
+
+def draw_color_own(prog: Program) -> RuleResult:
+    res = RuleResult(
+        "DRAW-COLOR-OWN",
+        "everything `_tikz_draw_branches` draws for a branch (node, connectors, loss marker, transfer arrow) takes "
+        "the colour of THAT branch: every `get_color(...)` argument is `<branch>.color` of the loop variable, never "
+        "the colour of a child or of another branch (a child's own colour must not leak above the child)",
+    )
+    modname = "render.tikz"
+    mod = prog.module(modname)
+    fn = prog.func(modname, "_tikz_draw_branches")
+    loops = [l for l in walk_no_nested(fn) if isinstance(l, ast.For) and isinstance(l.iter, ast.Call) and isinstance(l.iter.func, ast.Attribute) and l.iter.func.attr == "items" and isinstance(l.target, ast.Tuple) and len(l.target.elts) == 2]
+    if len(loops) != 1:
+        raise AnalysisError("_tikz_draw_branches: loop over the branches not found")
+    branch_var = dotted(loops[0].target.elts[1])
+    colour_fns = {p for p in func_params(fn) if any(isinstance(c, ast.Call) and dotted(c.func) == p and c.args and isinstance(c.args[0], ast.Attribute) and c.args[0].attr == "color" for c in ast.walk(fn))}
+    if not colour_fns:
+        raise AnalysisError("_tikz_draw_branches: colour interner parameter not found")
+    calls = [c for c in ast.walk(loops[0]) if isinstance(c, ast.Call) and dotted(c.func) in colour_fns]
+    bad = [c for c in calls if not (c.args and isinstance(c.args[0], ast.Attribute) and c.args[0].attr == "color" and dotted(c.args[0].value) == branch_var)]
+    construct = f"{modname}:_tikz_draw_branches/own-colour"
+    if bad:
+        res.fail(construct, f"`{short(bad[0])}` colours part of the drawing of `{branch_var}` with another branch's colour", mod, bad[0])
+    elif len(calls) < 5:
+        raise AnalysisError(f"_tikz_draw_branches: only {len(calls)} coloured statements found")
+    else:
+        res.ok(construct, f"{len(calls)} coloured statements, all `{branch_var}.color`")
+    return res
+
+
+# ---------------------------------------------------------------------------
+# PROXY-UPDATE-GATE
+
+
+def proxy_update_gate(prog: Program) -> RuleResult:
+    res = RuleResult(
+        "PROXY-UPDATE-GATE",
+        "EntryProxy.update forwards a batch of candidates to the real cell whenever ANY of them is finite - the gate "
+        "is policy-neutral (`any(not is_infinite(c.value) ...)` over all candidates, or no gate at all); a gate that "
+        "picks `min(...)` / `max(...)` of the batch takes the side of one merge policy and drops whole batches "
+        "under the other",
+    )
+    mod = prog.module(DP)
+    cls = prog.cls(DP, "EntryProxy")
+    fn = method_def(cls, "update")
+    if fn is None:
+        raise AnalysisError("EntryProxy.update not found")
+    var = fn.args.vararg.arg if fn.args.vararg else None
+    forwards = [c for c in walk_no_nested(fn) if isinstance(c, ast.Call) and isinstance(c.func, ast.Attribute) and c.func.attr == "update" and any(isinstance(a, ast.Starred) and dotted(a.value) == var for a in c.args)]
+    if var is None or len(forwards) != 1:
+        raise AnalysisError("EntryProxy.update: forwarding `cell.update(*candidates)` not found")
+    construct = f"{DP}:EntryProxy.update/gate"
+    gs = guards(fn, forwards[0])
+    gate = [g for g, pol in gs if any(isinstance(n_, ast.Name) and n_.id == var for n_ in ast.walk(g))]
+    if not gate:
+        res.ok(construct, "every batch is forwarded")
+        return res
+    problems = []
+    for g in gate:
+        if any(isinstance(c, ast.Call) and dotted(c.func) in ("min", "max", "sorted") for c in ast.walk(g)):
+            problems.append(f"the gate `{short(g, 90)}` ranks the batch with min/max regardless of the merge policy")
+            continue
+        anys = [c for c in ast.walk(g) if isinstance(c, ast.Call) and dotted(c.func) == "any" and c.args and isinstance(c.args[0], ast.GeneratorExp)]
+        ok = False
+        for c in anys:
+            gen = c.args[0]
+            if len(gen.generators) == 1 and dotted(gen.generators[0].iter) == var and not gen.generators[0].ifs:
+                elt = gen.elt
+                if isinstance(elt, ast.UnaryOp) and isinstance(elt.op, ast.Not) and isinstance(elt.operand, ast.Call) and (dotted(elt.operand.func) or "").endswith("is_infinite"):
+                    ok = True
+        if not ok:
+            raise AnalysisError(f"{construct}: gate `{short(g, 90)}` not recognised")
+    if problems:
+        res.fail(construct, "; ".join(problems), mod, gate[0])
+    else:
+        res.ok(construct, "forwarded when any candidate is finite")
+    return res
+
+
+# ---------------------------------------------------------------------------
+# CHAINED-ASSIGN-ORDER
+
+
+def chained_assign_order(prog: Program) -> RuleResult:
+    res = RuleResult(
+        "CHAINED-ASSIGN-ORDER",
+        "in a chained assignment `a = b[...] = value` Python binds the targets left to right: a later target never "
+        "reads a name that an earlier target of the same statement binds (`x = parent[x] = parent[parent[x]]` stores "
+        "at the NEW x - in a union-find it makes the grandparent its own root and splits the block)",
+    )
+    n = 0
+    for mod in sorted(prog.modules.values(), key=lambda m: m.relpath):
+        key = _modkey(mod)
+        bad = []
+        for qual, fn in prog.defs(mod.name).items():
+            if not isinstance(fn, FuncNode):
+                continue
+            for st in walk_no_nested(fn):
+                if isinstance(st, ast.Assign) and len(st.targets) > 1:
+                    n += 1
+                    bound: Set[str] = set()
+                    for tgt in st.targets:
+                        reads = {x.id for x in ast.walk(tgt) if isinstance(x, ast.Name) and isinstance(x.ctx, ast.Load)}
+                        if reads & bound:
+                            bad.append((qual, st, sorted(reads & bound)[0]))
+                            break
+                        bound |= {x.id for x in ast.walk(tgt) if isinstance(x, ast.Name) and isinstance(x.ctx, ast.Store)}
+        if bad:
+            for i, (qual, st, name) in enumerate(bad):
+                res.fail(f"{key}:{qual}/chained-assignment#{i}", f"`{short(st, 90)}`: the later target reads `{name}` after the earlier target has rebound it", mod, st)
+        else:
+            res.ok(f"{key}:<module>/chained-assignments", "no target reads a name bound earlier in the same statement", nontrivial=False)
+    return res
+
+
+# ---------------------------------------------------------------------------
+# TRIPLES-SOURCE
+
+
+def triples_source(prog: Program) -> RuleResult:
+    res = RuleResult(
+        "TRIPLES-SOURCE",
+        "trees_to_triples returns EVERY triple of every input tree: the returned collection is a set / list that "
+        "receives the whole triple lists (`update` / `extend` / `|=` / `add` of each triple); it is not a mapping "
+        "keyed by part of a triple (one constraint per cherry loses ab|c when ab|d came first) and not filtered",
+    )
+    mod = prog.module(TREES)
+    fn = prog.func(TREES, "trees_to_triples")
+    rets = [r for r in walk_no_nested(fn) if isinstance(r, ast.Return) and isinstance(r.value, ast.Tuple) and len(r.value.elts) == 2]
+    if len(rets) != 1:
+        raise AnalysisError("trees_to_triples: `return leaves, triples` not found")
+    construct = f"{TREES}:trees_to_triples/all-triples"
+    second = rets[0].value.elts[1]
+    inner = second
+    while isinstance(inner, ast.Call) and dotted(inner.func) in ("list", "sorted", "tuple", "set") and inner.args:
+        inner = inner.args[0]
+    if not isinstance(inner, ast.Name):
+        res.fail(construct, f"the triples returned are `{short(second)}`, not the accumulated collection itself", mod, rets[0])
+        return res
+    acc = inner.id
+    inits = [st for st in walk_no_nested(fn) if isinstance(st, (ast.Assign, ast.AnnAssign)) and any(isinstance(t, ast.Name) and t.id == acc for t in (st.targets if isinstance(st, ast.Assign) else [st.target]))]
+    if any(isinstance(st.value, (ast.Dict, ast.DictComp)) or (isinstance(st.value, ast.Call) and dotted(st.value.func) in ("dict", "defaultdict", "OrderedDict")) for st in inits if st.value is not None):
+        res.fail(construct, f"the triples are collected in the mapping `{acc}`: two triples with the same key keep only one of them", mod, inits[0])
+        return res
+    keyed = [st for st in walk_no_nested(fn) if (isinstance(st, ast.Assign) and any(isinstance(t, ast.Subscript) and dotted(t.value) == acc for t in st.targets)) or (isinstance(st, ast.Call) and isinstance(st.func, ast.Attribute) and st.func.attr == "setdefault" and dotted(st.func.value) == acc)]
+    if keyed:
+        res.fail(construct, f"`{short(keyed[0], 80)}` stores triples under a key", mod, keyed[0])
+        return res
+    feeds = [c for c in walk_no_nested(fn) if isinstance(c, ast.Call) and isinstance(c.func, ast.Attribute) and c.func.attr in ("update", "extend", "add", "append") and dotted(c.func.value) == acc]
+    feeds += [st for st in walk_no_nested(fn) if isinstance(st, ast.AugAssign) and dotted(st.target) == acc]
+    if not feeds:
+        raise AnalysisError("trees_to_triples: the triple accumulator is never fed")
+    if any(guards(fn, f) for f in feeds):
+        res.fail(construct, f"`{short(feeds[0], 80)}` is conditional: some triples are left out", mod, feeds[0])
+    else:
+        res.ok(construct, f"`{acc}` receives every triple of every tree")
+    return res
+
+
 RULES = {
+    "TRIPLES-SOURCE": triples_source,
+    "CHAINED-ASSIGN-ORDER": chained_assign_order,
+    "PROXY-UPDATE-GATE": proxy_update_gate,
+    "WRAP-AFTER-ESCAPE": wrap_after_escape,
+    "DRAW-COLOR-OWN": draw_color_own,
     "BINARY-COARSENINGS": binary_coarsenings,
     "PRIVATE-INDEX": private_index,
     "ITERABLE-ONCE": iterable_once,
